@@ -798,6 +798,7 @@ async def scenario(spec):
     obs["begin"] = res_b if ex_b is None else "raised:" + exc_name(ex_b)
     obs["begin_msg"] = str(ex_b)[:200] if ex_b is not None else None
     obs["after_begin"] = snap()
+    obs["replies_in_begin"] = len(plan.names)
     res_f, ex_f = ("skipped", None)
     if res_b in ("ok", "skipped"):
         if misuse != "no_pin":
@@ -1270,6 +1271,7 @@ def run_part(ctx):
     n_runs = 0
     swallowed_tamper = []
     samples, sampled = [], set()
+    table_runs = []
     # every run is an independent function of its spec (fresh handler, fresh virtual-time loop), so the
     # runs are spread over a few worker processes; results are consumed in submission order
     workers = max(1, min(8, (os.cpu_count() or 2) // 2))
@@ -1307,6 +1309,8 @@ def run_part(ctx):
                 swallowed_tamper.append("%s %s at %s" % (h, spec.get("sub"), obs.get("hit_name")))
         for key, what in verdicts:
             ctx.violation(key, what, dict(spec, observed=brief(obs), corpus_file=from_corpus))
+        if h != "dmap" and not verdicts:
+            table_runs.append((spec, obs))
         return obs
 
     try:
@@ -1364,7 +1368,7 @@ def run_part(ctx):
         if pool:
             pool.close()
             pool.join()
-    ctx.traces += n_runs
+    model_correspondence(ctx, table_runs)
     ctx.exhaustive = True
     ctx.extra["dyn"]["outcome_table"] = table
     ctx.extra["dyn"]["samples"] = samples
@@ -1383,6 +1387,69 @@ def run_part(ctx):
         "/pair-pin-start reply) may have content faults tolerated; transport faults there must still raise",
         "well-formed but altered replies (kind 'tamper': wrong proof, wrong signature) are an authenticity matter (C06) and only judged for consistency here",
     ]
+
+
+def model_correspondence(ctx, runs):
+    """Decision table of coq/C08/DynModel.v against the observed runs, evaluated inside Coq: which
+    call (begin/finish) ends, how (raised/cancelled), and what is stored afterwards.  Runs that the
+    oracle already reports (violations) and tolerated faults (see EXCHANGE_REPLIES, 'tamper') are
+    not part of the table."""
+    shape = {}
+    for spec, obs in runs:
+        if not spec.get("kind") and not spec.get("misuse") and not spec.get("cancel") and "cancel_after" not in spec and obs["finish"] == "ok":
+            # Companion connects without pair-verify whenever the SERVICE carries no credentials
+            key = (spec["handler"], len(obs["replies"]))
+            shape.setdefault(key, (len(obs["replies"]), obs["replies_in_begin"], list(obs["replies"])))
+    cc = common.CoqCases(ctx, "From PV Require Import Common.Cases C08.DynModel.", per_file=300)
+    cc.group("dyn", "check_case", "obs")
+    for spec, obs in runs:
+        if spec.get("misuse") or "cancel_after" in spec:
+            continue
+        h = spec["handler"]
+        cands = [v for (hh, _), v in shape.items() if hh == h]
+        if not cands:
+            continue
+        kind = spec.get("kind")
+        if not kind and not spec.get("cancel"):
+            n, nb, names = len(obs["replies"]), obs["replies_in_begin"], obs["replies"]
+            i, x = 0, "Good"
+        else:
+            # the exchange this run belongs to: the fault-free one whose replies start like this run's
+            got = obs["replies"]
+            match = [v for v in cands if v[2][:len(got)] == got] or [v for v in cands if got[:1] == v[2][:1]]
+            if not match:
+                continue
+            n, nb, names = match[0]
+            if spec.get("cancel"):
+                if not obs["hit"]:
+                    continue
+                i, x = spec["index"], "Held"
+            elif kind == "wrong_pin":
+                rej = [k for k, nm in enumerate(names) if nm in ("ps-m4", "legacy-step2")]
+                if not rej:
+                    continue
+                i, x = rej[0], "Bad"
+            elif kind == "refused":
+                i, x = 0, "Bad"
+            elif exchange_failed(spec, obs):
+                i, x = spec["index"], "Bad"
+            else:
+                continue
+        if obs["begin"] not in ("ok", "skipped"):
+            call, how = 1, (2 if obs["begin"] == "cancelled" else 1)
+        elif obs["finish"] != "ok":
+            call, how = 2, (2 if obs["finish"] == "cancelled" else 1)
+        else:
+            call, how = 0, 0
+        b, a = obs["before"], obs["after"]
+        term = ("{| o_n := %d; o_nb := %d; o_i := %d; o_x := %s; o_call := %d; o_how := %d; o_service := %s; o_settings := %s; o_paired := %s |}"
+                % (n, nb, i, x, call, how, common.cbool(a["service"] != b["service"]), common.cbool(a["settings"] != b["settings"]), common.cbool(a["has_paired"])))
+        cc.add("dyn", term, {"spec": spec, "observed": brief(obs), "model_input": term})
+    bad = cc.run(timeout=300)
+    for g, meta in bad[:5]:
+        ctx.tie_broken("correspondence:dyn-decision-table", json.dumps(meta, default=repr))
+    ctx.extra["dyn"]["decision_table_cases"] = sum(len(d["cases"]) for d in cc.groups.values())
+    ctx.extra["dyn"]["decision_table_mismatches"] = len(bad)
 
 
 def replay_part(ctx, r):
